@@ -23,8 +23,8 @@ CLAIMED = {
  'C01': ('Machine-checked theorems (Lean 4, over the reals) about an executable model of the SO(3)/SE(3) kernels with the code\'s exact branches and constants: '
          'exp3/exp6 land in SO(3)/SE(3) for every rotation vector (both sides of the 1e-6 cut-off), log3(exp3 w) = w for 1e-6 <= |w| < pi and = 0 inside the band, '
          'exp3(log3 R) = R on all of SO(3) (identity, generic and half-turn branches with all three pivots; angle 0 or at least the cut-off), '
-         'hat/vee inverse, inv(T)T = I, Ad(T1T2) = Ad(T1)Ad(T2), Ad(inv T) = inv(Ad T), T[V]inv(T) = [Ad(T)V], ad = bracket. The SE(3) round trips exp6(log6 T) = T and log6(exp6 V) = V are '
-         'not yet theorems: those clauses are decided on the implementation only (labelled sampled). Model tied to the compiled kernels by a differential run on structured inputs.',
+         'hat/vee inverse, inv(T)T = I, Ad(T1T2) = Ad(T1)Ad(T2), Ad(inv T) = inv(Ad T), T[V]inv(T) = [Ad(T)V], ad = bracket. log6(exp6 V) = V for every twist with |w| = 0 or in [1e-6, pi) and exp6(log6 T) = T for every rigid transform with rotation angle 0 or in [1e-6, pi) (lterm * G = theta I from K^3 = -K and the half-angle identities); '
+         'only the half-turn branch of exp6(log6 T) is decided on the implementation (labelled sampled). Model tied to the compiled kernels by a differential run on structured inputs.',
          'Trusted: Lean kernel, Mathlib, harness generators/tolerances; IEEE rounding/libm/Numba outside the theorems (the falsifier found a genuine precision defect near pi that no real-number theorem can see: known finding).',
          'Lean 4 proofs over a generic executable model (Float instance run against the code, real instance proved) + differential correspondence',
          'DESIGN.md section 5 C01'),
